@@ -306,6 +306,7 @@ impl<T: El> SetMon<T> {
                 let pred = Pred::parse(&op.list);
                 let mut log = Vec::new();
                 self.set.retain(|t| {
+                    visited_push(t.val());
                     tick(Cb::Closure);
                     log.push((t.val(), t.id()));
                     pred.eval(t.val())
@@ -1051,9 +1052,11 @@ pub fn setfault(a: &Args, rep: &mut Report) {
                     let mut mon = fault_set(&contents, bh, phase, seed);
                     let st0 = mon.set.verif_state();
                     let before = mon.model.clone();
+                    visited_reset();
                     fuse_begin(Some((kind, idx)));
                     let r = catch(|| mon.exec(&op));
                     let (_, fired) = fuse_end();
+                    let visited = visited_take();
                     if !fired {
                         // fewer than idx callbacks of this kind in the call: next kind
                         match r {
@@ -1124,6 +1127,14 @@ pub fn setfault(a: &Args, rep: &mut Report) {
                                     let wrongly = lost.iter().filter(|v| if op.code == SRetain { pred.eval(**v) } else { !pred.eval(**v) }).count();
                                     if wrongly > 1 {
                                         return Err(format!("{wrongly} elements the predicate wanted to keep were lost {ctx}"));
+                                    }
+                                    // retain stops at the panic: what it had not looked at yet stays
+                                    // (drain_filter's destructor goes on by design)
+                                    if op.code == SRetain && kind == Cb::Closure {
+                                        let later: Vec<u64> = visited.iter().skip(idx as usize).copied().filter(|v| lost.contains(v)).collect();
+                                        if !later.is_empty() {
+                                            return Err(format!("retain went on after its predicate panicked and removed {later:?} {ctx} (at most the element handed to the panicking call may go)"));
+                                        }
                                     }
                                 } else if lost.len() > 1 || (lost.len() == 1 && !removing && lost[0] != op.k) {
                                     return Err(format!("elements {lost:?} lost {ctx} (at most the one handed to the callback may go)"));
